@@ -3,4 +3,1276 @@ import MelModel.Seal
 import MelModel.Lemmas.Swap
 import MelModel.SupplyDefs
 namespace Mel
+open Mel.Gen
+
+/-! ### sums over association lists -/
+
+namespace AList
+variable {κ ν : Type} [DecidableEq κ]
+
+/-- what the entry at `k` (if any) contributes to a sum -/
+def at? (m : AList κ ν) (f : κ × ν → Nat) (k : κ) : Nat :=
+  match get m k with
+  | some v => f (k, v)
+  | none => 0
+
+theorem at?_some {m : AList κ ν} {f : κ × ν → Nat} {k : κ} {v : ν} (h : get m k = some v) :
+    at? m f k = f (k, v) := by simp [at?, h]
+
+theorem at?_none {m : AList κ ν} {f : κ × ν → Nat} {k : κ} (h : get m k = none) :
+    at? m f k = 0 := by simp [at?, h]
+
+theorem sum_map_del (f : κ × ν → Nat) {m : AList κ ν} (hn : (keys m).Nodup) (k : κ) :
+    ((del m k).map f).sum + at? m f k = (m.map f).sum := by
+  induction m with
+  | nil => simp [del, at?, get]
+  | cons e rest ih =>
+    obtain ⟨k', v⟩ := e
+    simp only [keys, List.map_cons, List.nodup_cons] at hn
+    rw [del_cons]
+    by_cases hk : k' = k
+    · subst hk
+      have hnone : get rest k' = none := (get_eq_none_iff_not_mem_keys _ _).mpr hn.1
+      simp only [if_true, del_eq_self_of_get_none hnone, List.map_cons, List.sum_cons]
+      rw [at?_some (v := v) (by simp [get_cons])]
+      omega
+    · have := ih hn.2
+      simp only [hk, if_false, List.map_cons, List.sum_cons]
+      have e : at? ((k', v) :: rest) f k = at? rest f k := by simp [at?, get_cons, hk]
+      rw [e]; omega
+
+theorem sum_map_set (f : κ × ν → Nat) {m : AList κ ν} (hn : (keys m).Nodup) (k : κ) (v : ν) :
+    ((set m k v).map f).sum + at? m f k = (m.map f).sum + f (k, v) := by
+  have := sum_map_del f hn k
+  simp only [set, List.map_cons, List.sum_cons]
+  omega
+
+end AList
+
+/-! ### coin totals -/
+
+/-- what one coin contributes to the total of `d` -/
+def cw (d : Denom) (c : CoinDataHeight) : Nat := if c.coinData.denom = d then c.coinData.value else 0
+
+def CoinMap.Nodup (m : CoinMap) : Prop := (m.coins.map (·.1)).Nodup
+
+theorem coinsTotal_eq (m : CoinMap) (d : Denom) :
+    coinsTotal m d = (m.coins.map fun e => cw d e.2).sum := by
+  unfold coinsTotal
+  induction m.coins with
+  | nil => rfl
+  | cons e rest ih =>
+    simp only [List.filter_cons, List.map_cons, List.sum_cons, cw]
+    by_cases h : e.2.coinData.denom = d
+    · simp [h]; exact ih
+    · simp [h]; exact ih
+
+/-- contribution of the coin at `id` -/
+def cwAt (m : CoinMap) (d : Denom) (id : CoinID) : Nat :=
+  match m.getCoin id with
+  | some c => cw d c
+  | none => 0
+
+theorem cwAt_eq (m : CoinMap) (d : Denom) (id : CoinID) :
+    cwAt m d id = AList.at? m.coins (fun e => cw d e.2) id := by
+  unfold cwAt AList.at? CoinMap.getCoin
+  cases AList.get m.coins id <;> rfl
+
+theorem cwAt_some {m : CoinMap} {d : Denom} {id : CoinID} {c : CoinDataHeight} (h : m.getCoin id = some c) :
+    cwAt m d id = cw d c := by simp [cwAt, h]
+
+theorem cwAt_none {m : CoinMap} {d : Denom} {id : CoinID} (h : m.getCoin id = none) :
+    cwAt m d id = 0 := by simp [cwAt, h]
+
+theorem CoinMap.insertCoin_coins (m : CoinMap) (id : CoinID) (c : CoinDataHeight) (t : Bool) :
+    (m.insertCoin id c t).coins = m.coins.set id c := by
+  unfold CoinMap.insertCoin
+  simp only
+  split <;> rfl
+
+theorem CoinMap.removeCoin_coins {m m' : CoinMap} {id : CoinID} {t : Bool} (h : m.removeCoin id t = .ok m') :
+    m'.coins = m.coins.del id := by
+  unfold CoinMap.removeCoin at h
+  split at h
+  · split at h
+    · simp only at h
+      split at h
+      · cases h
+      · cases h
+        unfold CoinMap.insertCoinCount
+        split <;> rfl
+    · cases h; rfl
+  · cases h; rfl
+
+theorem CoinMap.getCoin_insertCoin_self (m : CoinMap) (id : CoinID) (c : CoinDataHeight) (t : Bool) :
+    (m.insertCoin id c t).getCoin id = some c := by
+  unfold CoinMap.getCoin
+  rw [CoinMap.insertCoin_coins]; exact AList.get_set_self _ _ _
+
+theorem CoinMap.Nodup_insertCoin {m : CoinMap} (hn : m.Nodup) (id : CoinID) (c : CoinDataHeight) (t : Bool) :
+    (m.insertCoin id c t).Nodup := by
+  unfold CoinMap.Nodup
+  rw [CoinMap.insertCoin_coins]; exact AList.keys_nodup_set _ _ hn
+
+theorem CoinMap.Nodup_removeCoin {m m' : CoinMap} {id : CoinID} {t : Bool} (hn : m.Nodup)
+    (h : m.removeCoin id t = .ok m') : m'.Nodup := by
+  unfold CoinMap.Nodup
+  rw [CoinMap.removeCoin_coins h]; exact AList.keys_nodup_del _ hn
+
+/-- inserting (or overwriting) a coin: the old coin's contribution goes, the new one's comes -/
+theorem coinsTotal_insertCoin {m : CoinMap} (hn : m.Nodup) (d : Denom) (id : CoinID) (c : CoinDataHeight)
+    (t : Bool) : coinsTotal (m.insertCoin id c t) d + cwAt m d id = coinsTotal m d + cw d c := by
+  rw [coinsTotal_eq, coinsTotal_eq, CoinMap.insertCoin_coins, cwAt_eq]
+  exact AList.sum_map_set (fun e => cw d e.2) hn id c
+
+theorem coinsTotal_removeCoin {m m' : CoinMap} (hn : m.Nodup) (d : Denom) {id : CoinID} {t : Bool}
+    (h : m.removeCoin id t = .ok m') : coinsTotal m' d + cwAt m d id = coinsTotal m d := by
+  rw [coinsTotal_eq, coinsTotal_eq, CoinMap.removeCoin_coins h, cwAt_eq]
+  exact AList.sum_map_del (fun e => cw d e.2) hn id
+
+/-! ### pool totals -/
+
+/-- what one pool contributes to the reserves of `d` -/
+def pc (d : Denom) (e : PoolKey × PoolState) : Nat :=
+  (if e.1.left = d then e.2.lefts else 0) + (if e.1.right = d then e.2.rights else 0)
+
+theorem poolsTotal_eq (pools : AList PoolKey PoolState) (d : Denom) :
+    poolsTotal pools d = (pools.map (pc d)).sum := rfl
+
+theorem poolsTotal_set {pools : AList PoolKey PoolState} (hn : (pools.map (·.1)).Nodup) (d : Denom)
+    (k : PoolKey) (p : PoolState) :
+    poolsTotal (pools.set k p) d + AList.at? pools (pc d) k = poolsTotal pools d + pc d (k, p) := by
+  rw [poolsTotal_eq, poolsTotal_eq]
+  exact AList.sum_map_set (pc d) hn k p
+
+theorem pools_nodup_set {pools : AList PoolKey PoolState} (hn : (pools.map (·.1)).Nodup)
+    (k : PoolKey) (p : PoolState) : ((pools.set k p).map (·.1)).Nodup :=
+  AList.keys_nodup_set k p hn
+
+
+/-! ### pool arithmetic without the no-saturation assumption -/
+
+/-- whatever `swap_many` does, nothing is created: reserves + withdrawn ≤ reserves + paid in -/
+theorem swapMany_le {p p' : PoolState} {l r lw rw : Nat} (h : p.swapMany l r = .ok (p', lw, rw)) :
+    p'.lefts + lw ≤ p.lefts + l ∧ p'.rights + rw ≤ p.rights + r := by
+  unfold PoolState.swapMany at h
+  simp only at h
+  split at h
+  · cases h
+  · split at h
+    · cases h
+    · split at h
+      · cases h
+      · split at h
+        · cases h
+        · split at h
+          · cases h
+          · cases h
+            simp only
+            unfold satAdd128 at *
+            omega
+
+/-- the three builtin pool keys, spelled out -/
+theorem poolMelSym_eq : poolMelSym = { left := .mel, right := .sym } := by decide
+theorem poolMelErg_eq : poolMelErg = { left := .erg, right := .mel } := by decide
+theorem poolErgSym_eq : poolErgSym = { left := .erg, right := .sym } := by decide
+
+
+theorem pc_le (d : Denom) (k : PoolKey) (p : PoolState) : pc d (k, p) ≤ p.lefts + p.rights := by
+  simp only [pc]
+  split <;> split <;> omega
+
+/-- conditionally creating an absent pool adds at most its two sides -/
+theorem poolsTotal_setIf (pools : AList PoolKey PoolState) (c : Bool) (k : PoolKey) (p : PoolState) (d : Denom)
+    (hn : (pools.map (·.1)).Nodup) (hc : c = true → pools.get k = none) :
+    ((if c then pools.set k p else pools).map (·.1)).Nodup ∧
+    poolsTotal (if c then pools.set k p else pools) d ≤ poolsTotal pools d + (p.lefts + p.rights) := by
+  cases c with
+  | false => exact ⟨hn, by simp⟩
+  | true =>
+    simp only [if_true]
+    refine ⟨pools_nodup_set hn k p, ?_⟩
+    have h1 := poolsTotal_set hn d k p
+    rw [AList.at?_none (hc rfl)] at h1
+    have := pc_le d k p
+    omega
+
+
+/-! ### the pool-key order is a strict total order, so `sortDedup` has no duplicates -/
+
+theorem bytesLt_irrefl (a : List UInt8) : bytesLt a a = false := by
+  cases h : bytesLt a a with
+  | false => rfl
+  | true => have := bytesLt_asymm a a h; rw [h] at this; cases this
+
+theorem bytesLt_trans : ∀ (a b c : List UInt8), bytesLt a b = true → bytesLt b c = true → bytesLt a c = true := by
+  intro a
+  induction a with
+  | nil =>
+    intro b c h1 h2
+    cases b with
+    | nil => simp [bytesLt] at h1
+    | cons y ys => cases c with
+      | nil => simp [bytesLt] at h2
+      | cons z zs => simp [bytesLt]
+  | cons x xs ih =>
+    intro b c h1 h2
+    cases b with
+    | nil => simp [bytesLt] at h1
+    | cons y ys =>
+      cases c with
+      | nil => simp [bytesLt] at h2
+      | cons z zs =>
+        simp only [bytesLt] at h1 h2 ⊢
+        by_cases hxy : x < y
+        · by_cases hyz : y < z
+          · simp [UInt8.lt_trans hxy hyz]
+          · by_cases hzy : z < y
+            · simp [hyz, hzy] at h2
+            · have : y = z := UInt8.le_antisymm (UInt8.not_lt.mp hzy) (UInt8.not_lt.mp hyz)
+              subst this; simp [hxy]
+        · by_cases hyx : y < x
+          · simp [hxy, hyx] at h1
+          · have : x = y := UInt8.le_antisymm (UInt8.not_lt.mp hyx) (UInt8.not_lt.mp hxy)
+            subst this
+            simp only [hxy, if_false] at h1
+            by_cases hxz : x < z
+            · simp [hxz]
+            · by_cases hzx : z < x
+              · simp [hxz, hzx] at h2
+              · simp only [hxz, hzx, if_false] at h2 ⊢
+                exact ih ys zs h1 h2
+
+theorem bytesLt_total : ∀ (a b : List UInt8), a ≠ b → bytesLt a b = false → bytesLt b a = true := by
+  intro a
+  induction a with
+  | nil =>
+    intro b hne h
+    cases b with
+    | nil => exact absurd rfl hne
+    | cons y ys => simp [bytesLt] at h
+  | cons x xs ih =>
+    intro b hne h
+    cases b with
+    | nil => simp [bytesLt]
+    | cons y ys =>
+      simp only [bytesLt] at h ⊢
+      by_cases hxy : x < y
+      · simp [hxy] at h
+      · by_cases hyx : y < x
+        · simp [hyx]
+        · have : x = y := UInt8.le_antisymm (UInt8.not_lt.mp hyx) (UInt8.not_lt.mp hxy)
+          subst this
+          simp only [hxy, if_false] at h ⊢
+          exact ih ys (fun e => hne (by rw [e])) h
+
+theorem Denom.lt_irrefl (a : Denom) : a.lt a = false := by
+  cases a <;> simp [Denom.lt, Denom.rank, bytesLt_irrefl]
+
+theorem Denom.lt_trans (a b c : Denom) (h1 : a.lt b = true) (h2 : b.lt c = true) : a.lt c = true := by
+  cases a <;> cases b <;> cases c <;> simp_all [Denom.lt, Denom.rank]
+  exact bytesLt_trans _ _ _ h1 h2
+
+theorem Denom.lt_total (a b : Denom) (hne : a ≠ b) (h : a.lt b = false) : b.lt a = true := by
+  cases a <;> cases b <;> simp_all [Denom.lt, Denom.rank]
+  exact bytesLt_total _ _ hne h
+
+theorem PoolKey.lt_irrefl (a : PoolKey) : a.lt a = false := by
+  simp [PoolKey.lt, Denom.lt_irrefl]
+
+theorem PoolKey.lt_trans (a b c : PoolKey) (h1 : a.lt b = true) (h2 : b.lt c = true) : a.lt c = true := by
+  unfold PoolKey.lt at *
+  by_cases e1 : a.left = b.left
+  · by_cases e2 : b.left = c.left
+    · simp only [e1, e2, if_true] at h1 h2 ⊢
+      exact Denom.lt_trans _ _ _ h1 h2
+    · simp only [e1, e2, if_true, if_false] at h1 h2 ⊢
+      exact h2
+  · by_cases e2 : b.left = c.left
+    · simp only [e1, ← e2, if_true, if_false] at h1 h2 ⊢
+      exact h1
+    · simp only [e1, e2, if_false] at h1 h2
+      have := Denom.lt_trans _ _ _ h1 h2
+      by_cases e3 : a.left = c.left
+      · rw [e3] at h1
+        have := Denom.lt_trans _ _ _ h1 h2
+        rw [Denom.lt_irrefl] at this; cases this
+      · simp only [e3, if_false]; exact this
+
+theorem PoolKey.lt_total (a b : PoolKey) (hne : a ≠ b) (h : a.lt b = false) : b.lt a = true := by
+  unfold PoolKey.lt at *
+  by_cases e1 : a.left = b.left
+  · simp only [e1, if_true] at h ⊢
+    refine Denom.lt_total _ _ ?_ h
+    intro e2; apply hne
+    cases a; cases b; simp_all
+  · have e1' : ¬ b.left = a.left := fun e => e1 e.symm
+    simp only [e1, e1', if_false] at h ⊢
+    exact Denom.lt_total _ _ e1 h
+
+section sortDedup
+variable {α : Type} [DecidableEq α] (lt : α → α → Bool)
+
+theorem mem_insertSorted {x z : α} : ∀ {l : List α}, z ∈ insertSorted lt x l → z = x ∨ z ∈ l := by
+  intro l
+  induction l with
+  | nil => intro h; simp [insertSorted] at h; exact Or.inl h
+  | cons y ys ih =>
+    intro h
+    simp only [insertSorted] at h
+    split at h
+    · exact Or.inr h
+    · split at h
+      · rcases List.mem_cons.mp h with h | h
+        · exact Or.inl h
+        · exact Or.inr h
+      · rcases List.mem_cons.mp h with h | h
+        · exact Or.inr (h ▸ List.mem_cons_self)
+        · rcases ih h with h | h
+          · exact Or.inl h
+          · exact Or.inr (List.mem_cons_of_mem _ h)
+
+theorem insertSorted_pairwise (htr : ∀ a b c, lt a b = true → lt b c = true → lt a c = true)
+    (htot : ∀ a b, a ≠ b → lt a b = false → lt b a = true) (x : α) :
+    ∀ l : List α, l.Pairwise (fun a b => lt a b = true) → (insertSorted lt x l).Pairwise (fun a b => lt a b = true) := by
+  intro l
+  induction l with
+  | nil => intro _; simp [insertSorted]
+  | cons y ys ih =>
+    intro hp
+    have hp' := List.pairwise_cons.mp hp
+    simp only [insertSorted]
+    split
+    · exact hp
+    · next hxy =>
+      split
+      · next hlt =>
+        refine List.pairwise_cons.mpr ⟨?_, hp⟩
+        intro z hz
+        rcases List.mem_cons.mp hz with hz | hz
+        · rw [hz]; exact hlt
+        · exact htr _ _ _ hlt (hp'.1 z hz)
+      · next hlt =>
+        refine List.pairwise_cons.mpr ⟨?_, ih hp'.2⟩
+        intro z hz
+        rcases mem_insertSorted lt hz with hz | hz
+        · rw [hz]; exact htot _ _ hxy (by simpa using hlt)
+        · exact hp'.1 z hz
+
+theorem sortDedup_nodup (hirr : ∀ a, lt a a = false)
+    (htr : ∀ a b c, lt a b = true → lt b c = true → lt a c = true)
+    (htot : ∀ a b, a ≠ b → lt a b = false → lt b a = true) (l : List α) : (sortDedup lt l).Nodup := by
+  have key : ∀ (l acc : List α), acc.Pairwise (fun a b => lt a b = true) →
+      (l.foldl (fun acc x => insertSorted lt x acc) acc).Pairwise (fun a b => lt a b = true) := by
+    intro l
+    induction l with
+    | nil => intro acc h; exact h
+    | cons x xs ih => intro acc h; exact ih _ (insertSorted_pairwise lt htr htot x acc h)
+  have := key l [] List.Pairwise.nil
+  unfold sortDedup
+  refine List.Pairwise.imp ?_ this
+  intro a b hab e
+  rw [e, hirr] at hab; cases hab
+
+end sortDedup
+
+theorem extractPoolKeysSorted_nodup (txs : List Tx) : (extractPoolKeysSorted txs).Nodup :=
+  sortDedup_nodup _ PoolKey.lt_irrefl PoolKey.lt_trans PoolKey.lt_total _
+
+
+/-! ### saturating sums -/
+
+theorem satSum_le (l : List Nat) : satSum l ≤ l.sum := by
+  have key : ∀ (l : List Nat) (acc : Nat), l.foldl satAdd128 acc ≤ acc + l.sum := by
+    intro l
+    induction l with
+    | nil => intro acc; simp
+    | cons x xs ih =>
+      intro acc
+      simp only [List.foldl_cons, List.sum_cons]
+      have := ih (satAdd128 acc x)
+      have : satAdd128 acc x ≤ acc + x := by unfold satAdd128; omega
+      omega
+  have := key l 0
+  unfold satSum; omega
+
+theorem satSum_eq {l : List Nat} (h : l.sum ≤ U128_MAX) : satSum l = l.sum := by
+  have key : ∀ (l : List Nat) (acc : Nat), acc + l.sum ≤ U128_MAX → l.foldl satAdd128 acc = acc + l.sum := by
+    intro l
+    induction l with
+    | nil => intro acc _; simp
+    | cons x xs ih =>
+      intro acc hb
+      simp only [List.foldl_cons, List.sum_cons] at hb ⊢
+      have e : satAdd128 acc x = acc + x := satAdd128_of_le (by omega)
+      rw [e, ih (acc + x) (by omega)]; omega
+  have := key l 0 (by omega)
+  unfold satSum; omega
+
+/-! ### list sums -/
+
+theorem sum_ite_add {α} (P Q : Prop) [Decidable P] [Decidable Q] (f g : α → Nat) (l : List α) :
+    (l.map fun x => (if P then f x else 0) + (if Q then g x else 0)).sum
+      = (if P then (l.map f).sum else 0) + (if Q then (l.map g).sum else 0) := by
+  induction l with
+  | nil => simp
+  | cons x xs ih =>
+    simp only [List.map_cons, List.sum_cons, ih]
+    by_cases hP : P <;> by_cases hQ : Q <;> simp [hP, hQ] <;> omega
+
+theorem sum_map_zero {α} (l : List α) : (l.map fun _ => (0 : Nat)).sum = 0 := by
+  induction l with
+  | nil => rfl
+  | cons x xs ih => simpa using ih
+
+/-- pro-rata shares of `T` never add up to more than `T` -/
+theorem pro_rata_le (T : Nat) (vs : List Nat) : (vs.map fun v => T * v / vs.sum).sum ≤ T := by
+  by_cases h0 : vs.sum = 0
+  · rw [h0]; simp only [Nat.div_zero, sum_map_zero]; omega
+  · have h := pro_rata_aux T vs.sum vs
+    have hpos : 0 < vs.sum := by omega
+    rw [Nat.mul_comm T vs.sum, Nat.mul_comm _ vs.sum] at h
+    exact Nat.le_of_mul_le_mul_left h hpos
+
+theorem eq_of_nodup_map {α β} (f : α → β) : ∀ {l : List α}, (l.map f).Nodup → ∀ {a b}, a ∈ l → b ∈ l →
+    f a = f b → a = b := by
+  intro l
+  induction l with
+  | nil => intro _ a b ha; cases ha
+  | cons x xs ih =>
+    intro hn a b ha hb e
+    simp only [List.map_cons, List.nodup_cons, List.mem_map, not_exists, not_and] at hn
+    rcases List.mem_cons.mp ha with ha1 | ha1 <;> rcases List.mem_cons.mp hb with hb1 | hb1
+    · rw [ha1, hb1]
+    · rw [ha1] at e; exact absurd e.symm (hn.1 b hb1)
+    · rw [hb1] at e; exact absurd e (hn.1 a ha1)
+    · exact ih hn.2 ha1 hb1 e
+
+/-! ### distinct coins weigh no more than the total -/
+
+theorem sum_at_le {κ ν : Type} [DecidableEq κ] (f : κ × ν → Nat) :
+    ∀ (ids : List κ) (m : AList κ ν), (AList.keys m).Nodup → ids.Nodup →
+      (ids.map fun id => AList.at? m f id).sum ≤ (m.map f).sum := by
+  intro ids
+  induction ids with
+  | nil => intro m _ _; simp
+  | cons id rest ih =>
+    intro m hn hids
+    simp only [List.nodup_cons] at hids
+    have h1 := AList.sum_map_del f hn id
+    have h2 := ih (AList.del m id) (AList.keys_nodup_del id hn) hids.2
+    have e : (rest.map fun id' => AList.at? (AList.del m id) f id') = rest.map fun id' => AList.at? m f id' := by
+      apply List.map_congr_left
+      intro id' hid'
+      have hne : id' ≠ id := fun e => hids.1 (e ▸ hid')
+      simp only [AList.at?, AList.get_del_ne m hne]
+    rw [e] at h2
+    simp only [List.map_cons, List.sum_cons]
+    omega
+
+theorem sum_cwAt_le (m : CoinMap) (d : Denom) (hn : m.Nodup) (ids : List CoinID) (hids : ids.Nodup) :
+    (ids.map fun id => cwAt m d id).sum ≤ coinsTotal m d := by
+  rw [coinsTotal_eq]
+  have := sum_at_le (fun e : CoinID × CoinDataHeight => cw d e.2) ids m.coins hn hids
+  simpa [cwAt_eq] using this
+
+/-! ### folding a per-transaction coin rewrite over transactions with distinct hashes -/
+
+theorem coinFold (f : CoinMap → Tx → Outcome CoinMap) (d : Denom) (dec inc : Tx → Nat) (c0 : CoinMap) :
+    ∀ (l : List Tx),
+      (∀ c tx c', tx ∈ l → c.Nodup → (∀ i, c.getCoin ⟨tx.hash, i⟩ = c0.getCoin ⟨tx.hash, i⟩) → f c tx = .ok c' →
+        c'.Nodup ∧ coinsTotal c' d + dec tx ≤ coinsTotal c d + inc tx ∧
+        (∀ id : CoinID, id.txhash ≠ tx.hash → c'.getCoin id = c.getCoin id)) →
+      (l.map (·.hash)).Nodup →
+      ∀ c c', c.Nodup → (∀ tx ∈ l, ∀ i, c.getCoin ⟨tx.hash, i⟩ = c0.getCoin ⟨tx.hash, i⟩) →
+        Outcome.foldlM' f c l = .ok c' →
+        c'.Nodup ∧ coinsTotal c' d + (l.map dec).sum ≤ coinsTotal c d + (l.map inc).sum := by
+  intro l
+  induction l with
+  | nil =>
+    intro _ _ c c' hn _ h
+    simp only [Outcome.foldlM'] at h
+    cases h
+    exact ⟨hn, by simp⟩
+  | cons tx rest ih =>
+    intro hstep hh c c' hn hsame h
+    simp only [Outcome.foldlM'] at h
+    simp only [List.map_cons, List.nodup_cons, List.mem_map, not_exists, not_and] at hh
+    split at h
+    · next c1 hc1 =>
+      obtain ⟨n1, t1, u1⟩ := hstep c tx c1 List.mem_cons_self hn (hsame tx List.mem_cons_self) hc1
+      have := ih (fun c tx' c' htx' => hstep c tx' c' (List.mem_cons_of_mem _ htx')) hh.2 c1 c' n1
+        (by
+          intro tx' htx' i
+          rw [u1 _ (by intro e; exact hh.1 tx' htx' e)]
+          exact hsame tx' (List.mem_cons_of_mem _ htx') i) h
+      refine ⟨this.1, ?_⟩
+      simp only [List.map_cons, List.sum_cons]
+      omega
+    · cases h
+    · cases h
+
+
+/-! ### per-pool settlement steps -/
+
+/-- what a settlement step keeps: unique keys afterwards, same block data, fee pool and tips -/
+structure Good (s0 st : State) : Prop where
+  coinKeys : st.coins.Nodup
+  poolKeys : (st.pools.map (·.1)).Nodup
+  txs : st.txs = s0.txs
+  height : st.height = s0.height
+  network : st.network = s0.network
+  feePool : st.feePool = s0.feePool
+  tips : st.tips = s0.tips
+
+theorem Good.trans {a b c : State} (h1 : Good a b) (h2 : Good b c) : Good a c :=
+  ⟨h2.coinKeys, h2.poolKeys, h2.txs.trans h1.txs, h2.height.trans h1.height, h2.network.trans h1.network,
+   h2.feePool.trans h1.feePool, h2.tips.trans h1.tips⟩
+
+/-- coins + pool reserves of a denomination -/
+def cp (s : State) (d : Denom) : Nat := coinsTotal s.coins d + poolsTotal s.pools d
+
+theorem outCoinID_eq (tx : Tx) (i : Nat) : outCoinID tx i = ⟨tx.hash, i⟩ := rfl
+
+theorem multiplyFrac_le {x n d v : Nat} (h : multiplyFrac x n d = .ok v) : v ≤ x * n / d := by
+  unfold multiplyFrac at h
+  split at h
+  · cases h
+  · cases h; unfold satU128; omega
+
+theorem ne_of_txhash_ne {id : CoinID} {h : Hash} (i : Nat) (hne : id.txhash ≠ h) : id ≠ ⟨h, i⟩ := by
+  intro e; apply hne; rw [e]
+
+theorem swapStep (k : PoolKey) (st st' : State) (reqs : List Tx) (d : Denom)
+    (h : processSwapsForPool k st reqs = .ok st')
+    (hlr : k.left ≠ k.right) (hc : st.coins.Nodup) (hp : (st.pools.map (·.1)).Nodup)
+    (hh : (reqs.map (·.hash)).Nodup)
+    (hreq : ∀ tx ∈ reqs, ∃ c, st.coins.getCoin ⟨tx.hash, 0⟩ = some c ∧
+      c.coinData.value = (tx.outputs.headD default).value ∧
+      c.coinData.denom = (tx.outputs.headD default).denom ∧
+      ((tx.outputs.headD default).denom = k.left ∨ (tx.outputs.headD default).denom = k.right))
+    (hbL : (reqs.map fun tx => if (tx.outputs.headD default).denom = k.left
+              then (tx.outputs.headD default).value else 0).sum ≤ U128_MAX)
+    (hbR : (reqs.map fun tx => if (tx.outputs.headD default).denom = k.right
+              then (tx.outputs.headD default).value else 0).sum ≤ U128_MAX) :
+    Good st st' ∧ cp st' d ≤ cp st d := by
+  unfold processSwapsForPool at h
+  split at h
+  · cases h
+  · next pool hpool =>
+    simp only at h
+    rw [satSum_eq hbL, satSum_eq hbR] at h
+    generalize hlv : (fun tx : Tx => if (tx.outputs.headD default).denom = k.left
+              then (tx.outputs.headD default).value else 0) = lv at *
+    generalize hrv : (fun tx : Tx => if (tx.outputs.headD default).denom = k.right
+              then (tx.outputs.headD default).value else 0) = rv at *
+    split at h
+    · cases h
+    · cases h
+    · next pool' lw rw hsw =>
+      obtain ⟨coins, hfold, h2⟩ := Outcome.bind_eq_ok h
+      cases h2
+      have hsm := swapMany_le hsw
+      have hfold' := coinFold _ d
+        (fun tx => (if k.left = d then lv tx else 0) + (if k.right = d then rv tx else 0))
+        (fun tx => (if k.right = d then rw * lv tx / (reqs.map lv).sum else 0) +
+                   (if k.left = d then lw * rv tx / (reqs.map rv).sum else 0))
+        st.coins reqs ?_ hh st.coins coins hc (fun _ _ _ => rfl) hfold
+      · obtain ⟨hn', htot⟩ := hfold'
+        refine ⟨⟨hn', pools_nodup_set hp _ _, rfl, rfl, rfl, rfl, rfl⟩, ?_⟩
+        rw [sum_ite_add, sum_ite_add] at htot
+        have pL := pro_rata_le lw (reqs.map rv)
+        have pR := pro_rata_le rw (reqs.map lv)
+        rw [List.map_map] at pL pR
+        have ePL : ((fun v => lw * v / (reqs.map rv).sum) ∘ rv) = fun tx => lw * rv tx / (reqs.map rv).sum := rfl
+        have ePR : ((fun v => rw * v / (reqs.map lv).sum) ∘ lv) = fun tx => rw * lv tx / (reqs.map lv).sum := rfl
+        rw [ePL] at pL; rw [ePR] at pR
+        have hpt := poolsTotal_set hp d k pool'
+        rw [AList.at?_some hpool] at hpt
+        simp only [pc] at hpt
+        unfold cp
+        simp only
+        generalize (reqs.map fun tx => lw * rv tx / (reqs.map rv).sum).sum = A at *
+        generalize (reqs.map fun tx => rw * lv tx / (reqs.map lv).sum).sum = B at *
+        generalize (reqs.map lv).sum = TL at *
+        generalize (reqs.map rv).sum = TR at *
+        by_cases e1 : k.left = d
+        · have e2 : ¬ k.right = d := fun e => hlr (e1.trans e.symm)
+          simp only [e1, e2, if_true, if_false] at htot hpt
+          omega
+        · by_cases e2 : k.right = d
+          · simp only [e1, e2, if_true, if_false] at htot hpt
+            omega
+          · simp only [e1, e2, if_false] at htot hpt
+            omega
+      · intro c tx c' htx hn hsame hf
+        obtain ⟨cd, hcd, hf⟩ := Outcome.bind_eq_ok hf
+        cases hf
+        simp only [outCoinID_eq]
+        refine ⟨CoinMap.Nodup_insertCoin hn _ _ _, ?_, ?_⟩
+        · have ht := coinsTotal_insertCoin hn d (outCoinID tx 0) { coinData := cd, height := st.height } st.tip906
+          obtain ⟨c0, hc0, hv, hdn, hside⟩ := hreq tx htx
+          rw [outCoinID_eq, cwAt_some ((hsame 0).trans hc0)] at ht
+          simp only [cw, hv, hdn] at ht
+          have elv : lv tx = if (tx.outputs.headD default).denom = k.left
+              then (tx.outputs.headD default).value else 0 := by rw [← hlv]
+          have erv : rv tx = if (tx.outputs.headD default).denom = k.right
+              then (tx.outputs.headD default).value else 0 := by rw [← hrv]
+          generalize tx.outputs.headD default = o at *
+          split at hcd
+          · next hl =>
+            obtain ⟨v, hv', hcd⟩ := Outcome.bind_eq_ok hcd
+            cases hcd
+            have hle := multiplyFrac_le hv'
+            have hr : ¬ o.denom = k.right := fun e => hlr (hl.symm.trans e)
+            rw [if_pos hl] at elv; rw [if_neg hr] at erv
+            rw [elv, erv]
+            rw [hl] at ht
+            simp only [Nat.mul_zero, Nat.zero_div]
+            simp only at ht
+            by_cases e1 : k.left = d
+            · have e2 : ¬ k.right = d := fun e => hlr (e1.trans e.symm)
+              simp only [e1, e2, if_true, if_false] at ht ⊢
+              omega
+            · by_cases e2 : k.right = d
+              · simp only [e1, e2, if_true, if_false] at ht ⊢
+                omega
+              · simp only [e1, e2, if_false] at ht ⊢
+                omega
+          · next hl =>
+            obtain ⟨v, hv', hcd⟩ := Outcome.bind_eq_ok hcd
+            cases hcd
+            have hle := multiplyFrac_le hv'
+            have hr : o.denom = k.right := by
+              rcases hside with h | h
+              · exact absurd h hl
+              · exact h
+            rw [if_neg hl] at elv; rw [if_pos hr] at erv
+            rw [elv, erv]
+            rw [hr] at ht
+            simp only [Nat.mul_zero, Nat.zero_div]
+            simp only at ht
+            by_cases e1 : k.left = d
+            · have e2 : ¬ k.right = d := fun e => hlr (e1.trans e.symm)
+              simp only [e1, e2, if_true, if_false] at ht ⊢
+              omega
+            · by_cases e2 : k.right = d
+              · simp only [e1, e2, if_true, if_false] at ht ⊢
+                omega
+              · simp only [e1, e2, if_false] at ht ⊢
+                omega
+        · intro id hid
+          exact CoinMap.getCoin_insertCoin_ne _ _ _ (ne_of_txhash_ne 0 hid)
+
+
+theorem Good.refl {st : State} (hc : st.coins.Nodup) (hp : (st.pools.map (·.1)).Nodup) : Good st st :=
+  ⟨hc, hp, rfl, rfl, rfl, rfl, rfl⟩
+
+theorem deposit_le {p p' : PoolState} {l r q : Nat} (h : p.deposit l r = .ok (p', q)) :
+    p'.lefts ≤ p.lefts + l ∧ p'.rights ≤ p.rights + r := by
+  unfold PoolState.deposit at h
+  split at h
+  · cases h; simp only; omega
+  · simp only at h
+    split at h
+    · cases h
+    · cases h
+      simp only
+      unfold satAdd128
+      omega
+
+theorem withdraw_eq {p p' : PoolState} {q tl tr : Nat} (h : p.withdraw q = .ok (p', tl, tr)) :
+    p'.lefts + tl = p.lefts ∧ p'.rights + tr = p.rights := by
+  unfold PoolState.withdraw at h
+  split at h
+  · cases h
+  · next hq =>
+    split at h
+    · cases h
+    · simp only at h
+      split at h
+      · cases h; simp only; omega
+      · cases h
+        simp only
+        have h1 : p.lefts * q / p.liqs ≤ p.lefts := by
+          apply Nat.div_le_of_le_mul
+          rw [Nat.mul_comm p.liqs]
+          exact Nat.mul_le_mul_left _ (by omega)
+        have h2 : p.rights * q / p.liqs ≤ p.rights := by
+          apply Nat.div_le_of_le_mul
+          rw [Nat.mul_comm p.liqs]
+          exact Nat.mul_le_mul_left _ (by omega)
+        omega
+
+theorem at?_getD_newEmpty (pools : AList PoolKey PoolState) (d : Denom) (k : PoolKey) :
+    AList.at? pools (pc d) k = pc d (k, (pools.get k).getD PoolState.newEmpty) := by
+  unfold AList.at?
+  cases pools.get k with
+  | none => simp [pc, PoolState.newEmpty]
+  | some p => rfl
+
+theorem depositStep (env : Env) (k : PoolKey) (st st' : State) (reqs : List Tx) (d : Denom)
+    (h : processDepositsForPool env k st reqs = .ok st') (hleg : legacyDeposit st = false)
+    (hlr : k.left ≠ k.right) (hd : d ≠ liqTokenDenom env k)
+    (hc : st.coins.Nodup) (hp : (st.pools.map (·.1)).Nodup) (hh : (reqs.map (·.hash)).Nodup)
+    (hreq : ∀ tx ∈ reqs, ∃ c0 c1, st.coins.getCoin ⟨tx.hash, 0⟩ = some c0 ∧
+      st.coins.getCoin ⟨tx.hash, 1⟩ = some c1 ∧
+      c0.coinData.value = (tx.outputs.headD default).value ∧ c0.coinData.denom = k.left ∧
+      c1.coinData.value = ((tx.outputs.drop 1).headD default).value ∧ c1.coinData.denom = k.right) :
+    Good st st' ∧ cp st' d ≤ cp st d := by
+  unfold processDepositsForPool at h
+  simp only [hleg, Bool.false_eq_true, if_false] at h
+  split at h
+  · cases h
+  · cases h
+  · next pool' totalLiqs hdep =>
+    obtain ⟨coins, hfold, h2⟩ := Outcome.bind_eq_ok h
+    cases h2
+    have hdl := deposit_le hdep
+    have hfold' := coinFold _ d
+      (fun tx => (if k.left = d then (tx.outputs.headD default).value else 0) +
+                 (if k.right = d then ((tx.outputs.drop 1).headD default).value else 0))
+      (fun _ => 0) st.coins reqs ?_ hh st.coins coins hc (fun _ _ _ => rfl) hfold
+    · obtain ⟨hn', htot⟩ := hfold'
+      refine ⟨⟨hn', pools_nodup_set hp _ _, rfl, rfl, rfl, rfl, rfl⟩, ?_⟩
+      rw [sum_ite_add, sum_map_zero] at htot
+      have hpt := poolsTotal_set hp d k pool'
+      rw [at?_getD_newEmpty] at hpt
+      simp only [pc] at hpt
+      have sL := satSum_le (reqs.map fun tx => (tx.outputs.headD default).value)
+      have sR := satSum_le (reqs.map fun tx => ((tx.outputs.drop 1).headD default).value)
+      unfold cp
+      simp only
+      generalize satSum (reqs.map fun tx => (tx.outputs.headD default).value) = TL at *
+      generalize satSum (reqs.map fun tx => ((tx.outputs.drop 1).headD default).value) = TR at *
+      generalize (reqs.map fun tx => (tx.outputs.headD default).value).sum = SL at *
+      generalize (reqs.map fun tx => ((tx.outputs.drop 1).headD default).value).sum = SR at *
+      generalize (st.pools.get k).getD PoolState.newEmpty = pool at *
+      by_cases e1 : k.left = d
+      · have e2 : ¬ k.right = d := fun e => hlr (e1.trans e.symm)
+        simp only [e1, e2, if_true, if_false] at htot hpt
+        omega
+      · by_cases e2 : k.right = d
+        · simp only [e1, e2, if_true, if_false] at htot hpt
+          omega
+        · simp only [e1, e2, if_false] at htot hpt
+          omega
+    · intro c tx c' htx hn hsame hf
+      obtain ⟨v, _, hf⟩ := Outcome.bind_eq_ok hf
+      simp only [outCoinID_eq] at hf
+      obtain ⟨c0, c1, hc0, hc1, hv0, hd0, hv1, hd1⟩ := hreq tx htx
+      have hn1 := CoinMap.Nodup_insertCoin hn ⟨tx.hash, 0⟩
+        { coinData := { tx.outputs.headD default with denom := liqTokenDenom env k, value := v },
+          height := st.height } st.tip906
+      refine ⟨CoinMap.Nodup_removeCoin hn1 hf, ?_, ?_⟩
+      · have ht1 := coinsTotal_insertCoin hn d ⟨tx.hash, 0⟩
+          { coinData := { tx.outputs.headD default with denom := liqTokenDenom env k, value := v },
+            height := st.height } st.tip906
+        have ht2 := coinsTotal_removeCoin hn1 d hf
+        rw [cwAt_some ((hsame 0).trans hc0)] at ht1
+        have e : (c.insertCoin ⟨tx.hash, 0⟩
+          { coinData := { tx.outputs.headD default with denom := liqTokenDenom env k, value := v },
+            height := st.height } st.tip906).getCoin ⟨tx.hash, 1⟩ = some c1 := by
+          rw [CoinMap.getCoin_insertCoin_ne _ _ _ (by intro e; cases e)]
+          exact (hsame 1).trans hc1
+        rw [cwAt_some e] at ht2
+        have hd' : ¬ liqTokenDenom env k = d := fun e => hd e.symm
+        simp only [cw, hv0, hd0, hv1, hd1, hd', if_false] at ht1 ht2
+        omega
+      · intro id hid
+        rw [CoinMap.getCoin_removeCoin_ne hf (ne_of_txhash_ne 1 hid),
+          CoinMap.getCoin_insertCoin_ne _ _ _ (ne_of_txhash_ne 0 hid)]
+
+theorem withdrawStep (ld : Denom) (k : PoolKey) (st st' : State) (reqs : List Tx) (d : Denom)
+    (h : processWithdrawalsForPool k st reqs = .ok st')
+    (hlr : k.left ≠ k.right) (hd : d ≠ ld)
+    (hc : st.coins.Nodup) (hp : (st.pools.map (·.1)).Nodup) (hh : (reqs.map (·.hash)).Nodup)
+    (hreq : ∀ tx ∈ reqs, ∃ c0, st.coins.getCoin ⟨tx.hash, 0⟩ = some c0 ∧ c0.coinData.denom = ld)
+    (hb : (reqs.map fun tx => (tx.outputs.headD default).value).sum ≤ U128_MAX) :
+    Good st st' ∧ cp st' d ≤ cp st d := by
+  unfold processWithdrawalsForPool at h
+  simp only at h
+  rw [satSum_eq hb] at h
+  generalize hmy : (fun tx : Tx => (tx.outputs.headD default).value) = my at *
+  split at h
+  · cases h
+  · next pool hpool =>
+    split at h
+    · cases h; exact ⟨Good.refl hc hp, Nat.le_refl _⟩
+    · split at h
+      · cases h
+      · cases h
+      · next pool' tl tr hw =>
+        obtain ⟨coins, hfold, h2⟩ := Outcome.bind_eq_ok h
+        cases h2
+        have hwe := withdraw_eq hw
+        have hfold' := coinFold _ d (fun _ => 0)
+          (fun tx => (if k.left = d then tl * my tx / (reqs.map my).sum else 0) +
+                     (if k.right = d then tr * my tx / (reqs.map my).sum else 0))
+          st.coins reqs ?_ hh st.coins coins hc (fun _ _ _ => rfl) hfold
+        · obtain ⟨hn', htot⟩ := hfold'
+          refine ⟨⟨hn', pools_nodup_set hp _ _, rfl, rfl, rfl, rfl, rfl⟩, ?_⟩
+          rw [sum_ite_add, sum_map_zero] at htot
+          have pL := pro_rata_le tl (reqs.map my)
+          have pR := pro_rata_le tr (reqs.map my)
+          rw [List.map_map] at pL pR
+          have ePL : ((fun v => tl * v / (reqs.map my).sum) ∘ my) = fun tx => tl * my tx / (reqs.map my).sum := rfl
+          have ePR : ((fun v => tr * v / (reqs.map my).sum) ∘ my) = fun tx => tr * my tx / (reqs.map my).sum := rfl
+          rw [ePL] at pL; rw [ePR] at pR
+          have hpt := poolsTotal_set hp d k pool'
+          rw [AList.at?_some hpool] at hpt
+          simp only [pc] at hpt
+          unfold cp
+          simp only
+          generalize (reqs.map fun tx => tl * my tx / (reqs.map my).sum).sum = A at *
+          generalize (reqs.map fun tx => tr * my tx / (reqs.map my).sum).sum = B at *
+          by_cases e1 : k.left = d
+          · have e2 : ¬ k.right = d := fun e => hlr (e1.trans e.symm)
+            simp only [e1, e2, if_true, if_false] at htot hpt
+            omega
+          · by_cases e2 : k.right = d
+            · simp only [e1, e2, if_true, if_false] at htot hpt
+              omega
+            · simp only [e1, e2, if_false] at htot hpt
+              omega
+        · intro c tx c' htx hn hsame hf
+          obtain ⟨vl, hvl, hf⟩ := Outcome.bind_eq_ok hf
+          obtain ⟨vr, hvr, hf⟩ := Outcome.bind_eq_ok hf
+          cases hf
+          simp only [outCoinID_eq]
+          obtain ⟨c0, hc0, hd0⟩ := hreq tx htx
+          have emy : my tx = (tx.outputs.headD default).value := by rw [← hmy]
+          rw [← emy] at hvl hvr
+          have hl1 := multiplyFrac_le hvl
+          have hl2 := multiplyFrac_le hvr
+          have hn1 := CoinMap.Nodup_insertCoin hn ⟨tx.hash, 0⟩
+            { coinData := { tx.outputs.headD default with denom := k.left, value := vl },
+              height := st.height } st.tip906
+          refine ⟨CoinMap.Nodup_insertCoin hn1 _ _ _, ?_, ?_⟩
+          · have ht1 := coinsTotal_insertCoin hn d ⟨tx.hash, 0⟩
+              { coinData := { tx.outputs.headD default with denom := k.left, value := vl },
+                height := st.height } st.tip906
+            have ht2 := coinsTotal_insertCoin hn1 d ⟨tx.hash, 1⟩
+              { coinData := { tx.outputs.headD default with denom := k.right, value := vr },
+                height := st.height } st.tip906
+            rw [cwAt_some ((hsame 0).trans hc0)] at ht1
+            have hd' : ¬ ld = d := fun e => hd e.symm
+            simp only [cw, hd0, hd', if_false] at ht1 ht2
+            by_cases e1 : k.left = d
+            · have e2 : ¬ k.right = d := fun e => hlr (e1.trans e.symm)
+              simp only [e1, e2, if_true, if_false] at ht1 ht2 ⊢
+              omega
+            · by_cases e2 : k.right = d
+              · simp only [e1, e2, if_true, if_false] at ht1 ht2 ⊢
+                omega
+              · simp only [e1, e2, if_false] at ht1 ht2 ⊢
+                omega
+          · intro id hid
+            rw [CoinMap.getCoin_insertCoin_ne _ _ _ (ne_of_txhash_ne 1 hid),
+              CoinMap.getCoin_insertCoin_ne _ _ _ (ne_of_txhash_ne 0 hid)]
+
+
+/-! ### a settlement phase: the per-pool step folded over the (distinct) pool keys -/
+
+theorem mem_transactionsForPool_iff {reqs : List Tx} {k : PoolKey} {tx : Tx} :
+    tx ∈ transactionsForPool reqs k ↔ tx ∈ reqs ∧ canonicalPoolKey tx.data = some k := by
+  unfold transactionsForPool
+  simp [List.mem_filter]
+
+theorem transactionsForPool_nodup {reqs : List Tx} (hh : (reqs.map (·.hash)).Nodup) (k : PoolKey) :
+    ((transactionsForPool reqs k).map (·.hash)).Nodup :=
+  List.Nodup.sublist (List.Sublist.map _ List.filter_sublist) hh
+
+theorem phase_inv (s0 : State) (reqs : List Tx) (step : PoolKey → State → List Tx → Outcome State) (d : Denom)
+    (P : PoolKey → Prop)
+    (hstep : ∀ k st st', P k → step k st (transactionsForPool reqs k) = .ok st' → Good s0 st →
+       (∀ tx ∈ transactionsForPool reqs k, ∀ i,
+          st.coins.getCoin ⟨tx.hash, i⟩ = s0.coins.getCoin ⟨tx.hash, i⟩) →
+       Good st st' ∧ cp st' d ≤ cp st d ∧
+       (∀ id : CoinID, (∀ tx ∈ transactionsForPool reqs k, tx.hash ≠ id.txhash) →
+          st'.coins.getCoin id = st.coins.getCoin id))
+    (hh : (reqs.map (·.hash)).Nodup) :
+    ∀ ks : List PoolKey, ks.Nodup → (∀ k ∈ ks, P k) → ∀ st st', Good s0 st →
+      (∀ tx ∈ reqs, ∀ k ∈ ks, canonicalPoolKey tx.data = some k → ∀ i,
+          st.coins.getCoin ⟨tx.hash, i⟩ = s0.coins.getCoin ⟨tx.hash, i⟩) →
+      Outcome.foldlM' (fun st k => step k st (transactionsForPool reqs k)) st ks = .ok st' →
+      Good st st' ∧ cp st' d ≤ cp st d ∧
+      (∀ id : CoinID, (∀ tx ∈ reqs, tx.hash ≠ id.txhash) → st'.coins.getCoin id = st.coins.getCoin id) := by
+  intro ks
+  induction ks with
+  | nil =>
+    intro _ _ st st' hg _ h
+    simp only [Outcome.foldlM'] at h
+    cases h
+    exact ⟨Good.refl hg.coinKeys hg.poolKeys, Nat.le_refl _, fun _ _ => rfl⟩
+  | cons k ks ih =>
+    intro hks hP st st' hg hsame h
+    simp only [Outcome.foldlM'] at h
+    simp only [List.nodup_cons] at hks
+    split at h
+    · next st1 hst1 =>
+      obtain ⟨g1, le1, u1⟩ := hstep k st st1 (hP k List.mem_cons_self) hst1 hg (by
+        intro tx htx i
+        have := mem_transactionsForPool_iff.mp htx
+        exact hsame tx this.1 k List.mem_cons_self this.2 i)
+      obtain ⟨g2, le2, u2⟩ := ih hks.2 (fun k' hk' => hP k' (List.mem_cons_of_mem _ hk')) st1 st' (hg.trans g1) (by
+        intro tx htx k' hk' hck i
+        rw [u1 ⟨tx.hash, i⟩ (by
+          intro tx2 htx2 e
+          have h2 := mem_transactionsForPool_iff.mp htx2
+          have : tx2 = tx := eq_of_nodup_map _ hh h2.1 htx e
+          rw [this, hck] at h2
+          cases h2.2
+          exact hks.1 hk')]
+        exact hsame tx htx k' (List.mem_cons_of_mem _ hk') hck i) h
+      refine ⟨g1.trans g2, Nat.le_trans le2 le1, ?_⟩
+      intro id hid
+      rw [u2 id hid, u1 id (fun tx htx => hid tx (mem_transactionsForPool_iff.mp htx).1)]
+    · cases h
+    · cases h
+
+
+/-! ### what the selectors guarantee, in full -/
+
+theorem isSwapRequest_full {s : State} {tx : Tx} (h : isSwapRequest s tx = true) :
+    tx.kind = .swap ∧ ∃ k o rest c, tx.outputs = o :: rest ∧ canonicalPoolKey tx.data = some k ∧
+      s.coins.getCoin ⟨tx.hash, 0⟩ = some c ∧ (o.denom = k.left ∨ o.denom = k.right) := by
+  unfold isSwapRequest at h
+  simp only [Bool.and_eq_true, decide_eq_true_eq] at h
+  refine ⟨h.1, ?_⟩
+  have h2 := h.2
+  split at h2
+  · cases h2
+  · next o0 rest ho =>
+    simp only [Bool.and_eq_true] at h2
+    have h3 := h2.2
+    obtain ⟨c, hc⟩ := Option.isSome_iff_exists.mp h2.1.1
+    split at h3
+    · cases h3
+    · next k hk =>
+      split at h3
+      · cases h3
+      · simp only [Bool.and_eq_true, Bool.or_eq_true, decide_eq_true_eq] at h3
+        exact ⟨k, o0, rest, c, ho, hk, hc, h3.2⟩
+
+theorem isDepositRequest_full {s : State} {tx : Tx} (h : isDepositRequest s tx = true) :
+    tx.kind = .liqDeposit ∧ ∃ k o0 o1 rest c0 c1, tx.outputs = o0 :: o1 :: rest ∧
+      canonicalPoolKey tx.data = some k ∧
+      s.coins.getCoin ⟨tx.hash, 0⟩ = some c0 ∧ s.coins.getCoin ⟨tx.hash, 1⟩ = some c1 ∧
+      o0.denom = k.left ∧ o1.denom = k.right := by
+  unfold isDepositRequest at h
+  simp only [Bool.and_eq_true, decide_eq_true_eq] at h
+  refine ⟨h.1, ?_⟩
+  have h2 := h.2
+  split at h2
+  · next o0 o1 rest ho =>
+    simp only [Bool.and_eq_true] at h2
+    have h3 := h2.2
+    obtain ⟨c0, hc0⟩ := Option.isSome_iff_exists.mp h2.1.1.2
+    obtain ⟨c1, hc1⟩ := Option.isSome_iff_exists.mp h2.1.2
+    split at h3
+    · cases h3
+    · next k hk =>
+      simp only [Bool.and_eq_true, decide_eq_true_eq] at h3
+      exact ⟨k, o0, o1, rest, c0, c1, ho, hk, hc0, hc1, h3.1, h3.2⟩
+  · cases h2
+
+theorem isWithdrawRequest_full {env : Env} {s : State} {tx : Tx} (h : isWithdrawRequest env s tx = true) :
+    tx.kind = .liqWithdraw ∧ ∃ k o0 c0, tx.outputs = [o0] ∧ canonicalPoolKey tx.data = some k ∧
+      s.coins.getCoin ⟨tx.hash, 0⟩ = some c0 ∧ o0.denom = liqTokenDenom env k := by
+  unfold isWithdrawRequest at h
+  simp only [Bool.and_eq_true, decide_eq_true_eq] at h
+  refine ⟨h.1, ?_⟩
+  have h2 := h.2
+  split at h2
+  · next o0 ho =>
+    simp only [Bool.and_eq_true] at h2
+    have h3 := h2.2
+    obtain ⟨c0, hc0⟩ := Option.isSome_iff_exists.mp h2.1.2
+    split at h3
+    · cases h3
+    · next k hk =>
+      simp only [Bool.and_eq_true, decide_eq_true_eq] at h3
+      exact ⟨k, o0, c0, ho, hk, hc0, h3.2⟩
+  · cases h2
+
+/-- a canonical key has two different, concrete sides -/
+theorem canonical_sides {data : Bytes} {k : PoolKey} (h : canonicalPoolKey data = some k) :
+    k.left ≠ k.right ∧ k.left ≠ .newCustom ∧ k.right ≠ .newCustom := by
+  obtain ⟨h1, h2, h3, _⟩ := canonicalPoolKey_some h
+  refine ⟨?_, h2, h3⟩
+  intro e
+  rw [e, bytesLt_irrefl] at h1
+  cases h1
+
+theorem mem_sortDedup {α : Type} [DecidableEq α] (lt : α → α → Bool) {z : α} {l : List α}
+    (h : z ∈ sortDedup lt l) : z ∈ l := by
+  have key : ∀ (l acc : List α), z ∈ l.foldl (fun acc x => insertSorted lt x acc) acc → z ∈ acc ∨ z ∈ l := by
+    intro l
+    induction l with
+    | nil => intro acc h; exact Or.inl h
+    | cons x xs ih =>
+      intro acc h
+      rcases ih _ h with h | h
+      · rcases mem_insertSorted lt h with h | h
+        · exact Or.inr (h ▸ List.mem_cons_self)
+        · exact Or.inl h
+      · exact Or.inr (List.mem_cons_of_mem _ h)
+  rcases key l [] h with h | h
+  · cases h
+  · exact h
+
+theorem mem_extractPoolKeysSorted {txs : List Tx} {k : PoolKey} (h : k ∈ extractPoolKeysSorted txs) :
+    ∃ tx ∈ txs, canonicalPoolKey tx.data = some k := by
+  have := mem_sortDedup _ h
+  simpa [List.mem_filterMap] using this
+
+/-! ### transactions with distinct hashes own distinct coins, which weigh at most the total -/
+
+theorem sum_le_sum {α} (f g : α → Nat) : ∀ (l : List α), (∀ x ∈ l, f x ≤ g x) → (l.map f).sum ≤ (l.map g).sum := by
+  intro l
+  induction l with
+  | nil => intro _; simp
+  | cons x xs ih =>
+    intro h
+    simp only [List.map_cons, List.sum_cons]
+    have := h x List.mem_cons_self
+    have := ih (fun y hy => h y (List.mem_cons_of_mem _ hy))
+    omega
+
+theorem nodup_of_nodup_map {α β} (f : α → β) : ∀ {l : List α}, (l.map f).Nodup → l.Nodup := by
+  intro l
+  induction l with
+  | nil => intro _; exact List.nodup_nil
+  | cons x xs ih =>
+    intro h
+    simp only [List.map_cons, List.nodup_cons, List.mem_map, not_exists, not_and] at h ⊢
+    exact ⟨fun hx => h.1 x hx rfl, ih h.2⟩
+
+theorem sum_values_le (m : CoinMap) (hm : m.Nodup) (d : Denom) (l : List Tx) (i : Nat) (w : Tx → Nat)
+    (hh : (l.map (·.hash)).Nodup) (hw : ∀ tx ∈ l, w tx ≤ cwAt m d ⟨tx.hash, i⟩) :
+    (l.map w).sum ≤ coinsTotal m d := by
+  have h1 := sum_le_sum w (fun tx => cwAt m d ⟨tx.hash, i⟩) l hw
+  have hids : (l.map fun tx => (⟨tx.hash, i⟩ : CoinID)).Nodup := by
+    apply nodup_of_nodup_map (·.txhash)
+    rw [List.map_map]
+    exact hh
+  have h2 := sum_cwAt_le m d hm _ hids
+  rw [List.map_map] at h2
+  exact Nat.le_trans h1 h2
+
+/-- the coins of a transaction are as declared -/
+def FaithfulTx (m : CoinMap) (tx : Tx) : Prop :=
+  ∀ i o c, tx.outputs[i]? = some o → m.getCoin ⟨tx.hash, i⟩ = some c →
+    c.coinData.value = o.value ∧ c.coinData.denom = createdDenom tx o
+
+theorem createdDenom_of_ne {tx : Tx} {o : CoinData} (h : o.denom ≠ .newCustom) : createdDenom tx o = o.denom := by
+  unfold createdDenom; simp [h]
+
+theorem legacyDeposit_congr {a b : State} (hh : b.height = a.height) (hn : b.network = a.network) :
+    legacyDeposit b = legacyDeposit a := by
+  unfold legacyDeposit; rw [hh, hn]
+
+
+/-! ### the three settlement phases -/
+
+theorem swaps_phase (s0 st' : State) (m : CoinMap) (d : Denom) (h : processSwaps s0 = .ok st')
+    (hc : s0.coins.Nodup) (hp : (s0.pools.map (·.1)).Nodup) (hh : (s0.txs.map (·.hash)).Nodup)
+    (hm : m.Nodup) (hb : ∀ d, coinsTotal m d ≤ U128_MAX)
+    (hsame0 : ∀ tx ∈ s0.txs, tx.kind = .swap → ∀ i, s0.coins.getCoin ⟨tx.hash, i⟩ = m.getCoin ⟨tx.hash, i⟩)
+    (hf : ∀ tx ∈ s0.txs, tx.kind = .swap → FaithfulTx m tx) :
+    Good s0 st' ∧ cp st' d ≤ cp s0 d ∧
+    (∀ id : CoinID, (∀ tx ∈ s0.txs, tx.kind = .swap → tx.hash ≠ id.txhash) →
+      st'.coins.getCoin id = s0.coins.getCoin id) := by
+  unfold processSwaps at h
+  simp only at h
+  have hmem : ∀ tx, tx ∈ s0.txs.filter (isSwapRequest s0) → tx ∈ s0.txs ∧ isSwapRequest s0 tx = true :=
+    fun tx h => List.mem_filter.mp h
+  have hhr : ((s0.txs.filter (isSwapRequest s0)).map (·.hash)).Nodup :=
+    List.Nodup.sublist (List.Sublist.map _ List.filter_sublist) hh
+  generalize s0.txs.filter (isSwapRequest s0) = reqs at h hmem hhr
+  have hP : ∀ k ∈ extractPoolKeysSorted reqs, (fun k : PoolKey => k.left ≠ k.right ∧ k.left ≠ .newCustom ∧ k.right ≠ .newCustom) k := by
+    intro k hk
+    obtain ⟨tx, _, hck⟩ := mem_extractPoolKeysSorted hk
+    exact canonical_sides hck
+  have hstep : ∀ k st st1, (fun k : PoolKey => k.left ≠ k.right ∧ k.left ≠ .newCustom ∧ k.right ≠ .newCustom) k →
+      processSwapsForPool k st (transactionsForPool reqs k) = .ok st1 → Good s0 st →
+      (∀ tx ∈ transactionsForPool reqs k, ∀ i,
+        st.coins.getCoin ⟨tx.hash, i⟩ = s0.coins.getCoin ⟨tx.hash, i⟩) →
+      Good st st1 ∧ cp st1 d ≤ cp st d ∧
+      (∀ id : CoinID, (∀ tx ∈ transactionsForPool reqs k, tx.hash ≠ id.txhash) →
+        st1.coins.getCoin id = st.coins.getCoin id) := by
+    intro k st st1 hPk hst1 hg hsame
+    have hfacts : ∀ tx ∈ transactionsForPool reqs k, ∃ c, st.coins.getCoin ⟨tx.hash, 0⟩ = some c ∧
+        m.getCoin ⟨tx.hash, 0⟩ = some c ∧
+        c.coinData.value = (tx.outputs.headD default).value ∧
+        c.coinData.denom = (tx.outputs.headD default).denom ∧
+        ((tx.outputs.headD default).denom = k.left ∨ (tx.outputs.headD default).denom = k.right) := by
+      intro tx htx
+      obtain ⟨hin, hck'⟩ := mem_transactionsForPool_iff.mp htx
+      obtain ⟨htxs, hsel⟩ := hmem tx hin
+      obtain ⟨hkind, k', o, rest, c, ho, hck, hc0, hside⟩ := isSwapRequest_full hsel
+      have : k' = k := Option.some.inj (hck.symm.trans hck')
+      subst this
+      have hm0 : m.getCoin ⟨tx.hash, 0⟩ = some c := (hsame0 tx htxs hkind 0).symm.trans hc0
+      have hfa := hf tx htxs hkind 0 o c (by rw [ho]; rfl) hm0
+      have hne : o.denom ≠ .newCustom := by
+        rcases hside with e | e <;> rw [e]
+        · exact hPk.2.1
+        · exact hPk.2.2
+      rw [createdDenom_of_ne hne] at hfa
+      refine ⟨c, (hsame tx htx 0).trans hc0, hm0, ?_⟩
+      rw [ho]
+      exact ⟨hfa.1, hfa.2, hside⟩
+    have hbL := sum_values_le m hm k.left (transactionsForPool reqs k) 0
+      (fun tx => if (tx.outputs.headD default).denom = k.left then (tx.outputs.headD default).value else 0)
+      (transactionsForPool_nodup hhr k) (by
+        intro tx htx
+        obtain ⟨c, _, hm0, hv, hdn, _⟩ := hfacts tx htx
+        rw [cwAt_some hm0]
+        simp only [cw, hv, hdn]
+        exact Nat.le_refl _)
+    have hbR := sum_values_le m hm k.right (transactionsForPool reqs k) 0
+      (fun tx => if (tx.outputs.headD default).denom = k.right then (tx.outputs.headD default).value else 0)
+      (transactionsForPool_nodup hhr k) (by
+        intro tx htx
+        obtain ⟨c, _, hm0, hv, hdn, _⟩ := hfacts tx htx
+        rw [cwAt_some hm0]
+        simp only [cw, hv, hdn]
+        exact Nat.le_refl _)
+    obtain ⟨g1, l1⟩ := swapStep k st st1 (transactionsForPool reqs k) d hst1 hPk.1 hg.coinKeys hg.poolKeys
+      (transactionsForPool_nodup hhr k)
+      (fun tx htx => by
+        obtain ⟨c, h1, _, h3, h4, h5⟩ := hfacts tx htx
+        exact ⟨c, h1, h3, h4, h5⟩)
+      (Nat.le_trans hbL (hb _)) (Nat.le_trans hbR (hb _))
+    exact ⟨g1, l1, fun id hne => (processSwapsForPool_coins id k st _ st1 hst1 hne).1⟩
+
+  obtain ⟨g, le, u⟩ := phase_inv s0 reqs (fun k st l => processSwapsForPool k st l) d
+    (fun k => k.left ≠ k.right ∧ k.left ≠ .newCustom ∧ k.right ≠ .newCustom) hstep hhr
+    (extractPoolKeysSorted reqs) (extractPoolKeysSorted_nodup _) hP s0 st' (Good.refl hc hp)
+    (fun _ _ _ _ _ _ => rfl) h
+  exact ⟨g, le, fun id hid => u id (fun tx htx => hid tx (hmem tx htx).1 (isSwapRequest_full (hmem tx htx).2).1)⟩
+
+theorem deposits_phase (env : Env) (s0 st' : State) (m : CoinMap) (d : Denom)
+    (h : processDeposits env s0 = .ok st') (hleg : legacyDeposit s0 = false)
+    (hd : ∀ k, d ≠ liqTokenDenom env k)
+    (hc : s0.coins.Nodup) (hp : (s0.pools.map (·.1)).Nodup) (hh : (s0.txs.map (·.hash)).Nodup)
+    (hsame0 : ∀ tx ∈ s0.txs, tx.kind = .liqDeposit → ∀ i,
+      s0.coins.getCoin ⟨tx.hash, i⟩ = m.getCoin ⟨tx.hash, i⟩)
+    (hf : ∀ tx ∈ s0.txs, tx.kind = .liqDeposit → FaithfulTx m tx) :
+    Good s0 st' ∧ cp st' d ≤ cp s0 d ∧
+    (∀ id : CoinID, (∀ tx ∈ s0.txs, tx.kind = .liqDeposit → tx.hash ≠ id.txhash) →
+      st'.coins.getCoin id = s0.coins.getCoin id) := by
+  unfold processDeposits at h
+  simp only at h
+  have hmem : ∀ tx, tx ∈ s0.txs.filter (isDepositRequest s0) → tx ∈ s0.txs ∧ isDepositRequest s0 tx = true :=
+    fun tx h => List.mem_filter.mp h
+  have hhr : ((s0.txs.filter (isDepositRequest s0)).map (·.hash)).Nodup :=
+    List.Nodup.sublist (List.Sublist.map _ List.filter_sublist) hh
+  generalize s0.txs.filter (isDepositRequest s0) = reqs at h hmem hhr
+  have hP : ∀ k ∈ extractPoolKeysSorted reqs, (fun k : PoolKey => k.left ≠ k.right ∧ k.left ≠ .newCustom ∧ k.right ≠ .newCustom) k := by
+    intro k hk
+    obtain ⟨tx, _, hck⟩ := mem_extractPoolKeysSorted hk
+    exact canonical_sides hck
+  have hstep : ∀ k st st1, (fun k : PoolKey => k.left ≠ k.right ∧ k.left ≠ .newCustom ∧ k.right ≠ .newCustom) k →
+      processDepositsForPool env k st (transactionsForPool reqs k) = .ok st1 → Good s0 st →
+      (∀ tx ∈ transactionsForPool reqs k, ∀ i,
+        st.coins.getCoin ⟨tx.hash, i⟩ = s0.coins.getCoin ⟨tx.hash, i⟩) →
+      Good st st1 ∧ cp st1 d ≤ cp st d ∧
+      (∀ id : CoinID, (∀ tx ∈ transactionsForPool reqs k, tx.hash ≠ id.txhash) →
+        st1.coins.getCoin id = st.coins.getCoin id) := by
+    intro k st st1 hPk hst1 hg hsame
+    have hleg' : legacyDeposit st = false := (legacyDeposit_congr hg.height hg.network).trans hleg
+    obtain ⟨g1, l1⟩ := depositStep env k st st1 (transactionsForPool reqs k) d hst1 hleg' hPk.1 (hd k)
+      hg.coinKeys hg.poolKeys (transactionsForPool_nodup hhr k)
+      (by
+        intro tx htx
+        obtain ⟨hin, hck'⟩ := mem_transactionsForPool_iff.mp htx
+        obtain ⟨htxs, hsel⟩ := hmem tx hin
+        obtain ⟨hkind, k', o0, o1, rest, c0, c1, ho, hck, hc0, hc1, hd0, hd1⟩ := isDepositRequest_full hsel
+        have : k' = k := Option.some.inj (hck.symm.trans hck')
+        subst this
+        have hm0 : m.getCoin ⟨tx.hash, 0⟩ = some c0 := (hsame0 tx htxs hkind 0).symm.trans hc0
+        have hm1 : m.getCoin ⟨tx.hash, 1⟩ = some c1 := (hsame0 tx htxs hkind 1).symm.trans hc1
+        have hfa0 := hf tx htxs hkind 0 o0 c0 (by rw [ho]; rfl) hm0
+        have hfa1 := hf tx htxs hkind 1 o1 c1 (by rw [ho]; rfl) hm1
+        rw [createdDenom_of_ne (by rw [hd0]; exact hPk.2.1)] at hfa0
+        rw [createdDenom_of_ne (by rw [hd1]; exact hPk.2.2)] at hfa1
+        refine ⟨c0, c1, (hsame tx htx 0).trans hc0, (hsame tx htx 1).trans hc1, ?_⟩
+        rw [ho]
+        exact ⟨hfa0.1, hfa0.2.trans hd0, hfa1.1, hfa1.2.trans hd1⟩)
+    exact ⟨g1, l1, fun id hne => (processDepositsForPool_coins id env k st _ st1 hst1 hne).1⟩
+
+  obtain ⟨g, le, u⟩ := phase_inv s0 reqs (fun k st l => processDepositsForPool env k st l) d
+    (fun k => k.left ≠ k.right ∧ k.left ≠ .newCustom ∧ k.right ≠ .newCustom) hstep hhr
+    (extractPoolKeysSorted reqs) (extractPoolKeysSorted_nodup _) hP s0 st' (Good.refl hc hp)
+    (fun _ _ _ _ _ _ => rfl) h
+  exact ⟨g, le, fun id hid => u id (fun tx htx => hid tx (hmem tx htx).1 (isDepositRequest_full (hmem tx htx).2).1)⟩
+
+theorem withdrawals_phase (env : Env) (s0 st' : State) (m : CoinMap) (d : Denom)
+    (h : processWithdrawals env s0 = .ok st') (hd : ∀ k, d ≠ liqTokenDenom env k)
+    (hc : s0.coins.Nodup) (hp : (s0.pools.map (·.1)).Nodup) (hh : (s0.txs.map (·.hash)).Nodup)
+    (hm : m.Nodup) (hb : ∀ d, coinsTotal m d ≤ U128_MAX)
+    (hsame0 : ∀ tx ∈ s0.txs, tx.kind = .liqWithdraw → ∀ i,
+      s0.coins.getCoin ⟨tx.hash, i⟩ = m.getCoin ⟨tx.hash, i⟩)
+    (hf : ∀ tx ∈ s0.txs, tx.kind = .liqWithdraw → FaithfulTx m tx) :
+    Good s0 st' ∧ cp st' d ≤ cp s0 d := by
+  unfold processWithdrawals at h
+  simp only at h
+  have hmem : ∀ tx, tx ∈ s0.txs.filter (isWithdrawRequest env s0) →
+      tx ∈ s0.txs ∧ isWithdrawRequest env s0 tx = true := fun tx h => List.mem_filter.mp h
+  have hhr : ((s0.txs.filter (isWithdrawRequest env s0)).map (·.hash)).Nodup :=
+    List.Nodup.sublist (List.Sublist.map _ List.filter_sublist) hh
+  generalize s0.txs.filter (isWithdrawRequest env s0) = reqs at h hmem hhr
+  have hP : ∀ k ∈ extractPoolKeysSorted reqs, (fun k : PoolKey => k.left ≠ k.right ∧ k.left ≠ .newCustom ∧ k.right ≠ .newCustom) k := by
+    intro k hk
+    obtain ⟨tx, _, hck⟩ := mem_extractPoolKeysSorted hk
+    exact canonical_sides hck
+  have hstep : ∀ k st st1, (fun k : PoolKey => k.left ≠ k.right ∧ k.left ≠ .newCustom ∧ k.right ≠ .newCustom) k →
+      processWithdrawalsForPool k st (transactionsForPool reqs k) = .ok st1 → Good s0 st →
+      (∀ tx ∈ transactionsForPool reqs k, ∀ i,
+        st.coins.getCoin ⟨tx.hash, i⟩ = s0.coins.getCoin ⟨tx.hash, i⟩) →
+      Good st st1 ∧ cp st1 d ≤ cp st d ∧
+      (∀ id : CoinID, (∀ tx ∈ transactionsForPool reqs k, tx.hash ≠ id.txhash) →
+        st1.coins.getCoin id = st.coins.getCoin id) := by
+    intro k st st1 hPk hst1 hg hsame
+    have hfacts : ∀ tx ∈ transactionsForPool reqs k, ∃ c, st.coins.getCoin ⟨tx.hash, 0⟩ = some c ∧
+        m.getCoin ⟨tx.hash, 0⟩ = some c ∧
+        c.coinData.value = (tx.outputs.headD default).value ∧
+        c.coinData.denom = liqTokenDenom env k := by
+      intro tx htx
+      obtain ⟨hin, hck'⟩ := mem_transactionsForPool_iff.mp htx
+      obtain ⟨htxs, hsel⟩ := hmem tx hin
+      obtain ⟨hkind, k', o, c, ho, hck, hc0, hdn⟩ := isWithdrawRequest_full hsel
+      have : k' = k := Option.some.inj (hck.symm.trans hck')
+      subst this
+      have hm0 : m.getCoin ⟨tx.hash, 0⟩ = some c := (hsame0 tx htxs hkind 0).symm.trans hc0
+      have hfa := hf tx htxs hkind 0 o c (by rw [ho]; rfl) hm0
+      rw [createdDenom_of_ne (by rw [hdn]; unfold liqTokenDenom; intro e; cases e)] at hfa
+      refine ⟨c, (hsame tx htx 0).trans hc0, hm0, ?_⟩
+      rw [ho]
+      exact ⟨hfa.1, hfa.2.trans hdn⟩
+    have hbL := sum_values_le m hm (liqTokenDenom env k) (transactionsForPool reqs k) 0
+      (fun tx => (tx.outputs.headD default).value)
+      (transactionsForPool_nodup hhr k) (by
+        intro tx htx
+        obtain ⟨c, _, hm0, hv, hdn⟩ := hfacts tx htx
+        rw [cwAt_some hm0]
+        simp only [cw, hv, hdn, if_true]
+        exact Nat.le_refl _)
+    obtain ⟨g1, l1⟩ := withdrawStep (liqTokenDenom env k) k st st1 (transactionsForPool reqs k) d hst1 hPk.1
+      (hd k) hg.coinKeys hg.poolKeys (transactionsForPool_nodup hhr k)
+      (fun tx htx => by
+        obtain ⟨c, h1, _, _, h4⟩ := hfacts tx htx
+        exact ⟨c, h1, h4⟩)
+      (Nat.le_trans hbL (hb _))
+    exact ⟨g1, l1, fun id hne => (processWithdrawalsForPool_coins id k st _ st1 hst1 hne).1⟩
+
+  obtain ⟨g, le, _⟩ := phase_inv s0 reqs (fun k st l => processWithdrawalsForPool k st l) d
+    (fun k => k.left ≠ k.right ∧ k.left ≠ .newCustom ∧ k.right ≠ .newCustom) hstep hhr
+    (extractPoolKeysSorted reqs) (extractPoolKeysSorted_nodup _) hP s0 st' (Good.refl hc hp)
+    (fun _ _ _ _ _ _ => rfl) h
+  exact ⟨g, le⟩
+
 end Mel
